@@ -285,6 +285,17 @@ func (env *Env) parseTypeText(text string) (types.Type, bool) {
 		}
 		return types.NewSlice(t), true
 	}
+	if j := strings.LastIndex(text, "."); strings.Contains(text, "/") && j > strings.LastIndex(text, "/") && !strings.ContainsAny(text, "[]{}() ") {
+		// a type named by full import path: github.com/qiniu/x/errors.List
+		for _, sp := range env.ex.eng.Prog.AllPackages() {
+			if sp.Pkg.Path() == text[:j] {
+				if tn, ok := sp.Pkg.Scope().Lookup(text[j+1:]).(*types.TypeName); ok {
+					return tn.Type(), true
+				}
+			}
+		}
+		return nil, false
+	}
 	if i := strings.Index(text, "."); i > 0 && !strings.ContainsAny(text, "[]{}() ") {
 		pkg := env.importedPkg(text[:i])
 		if pkg == nil && env.pkg != nil && env.pkg.Name() == text[:i] {
@@ -923,12 +934,24 @@ func (ex *Exec) loopFrame(h, srt, cur string) {
 			continue
 		}
 		if t.ref == "" {
+			if t.cond != "" {
+				excl = append(excl, not(t.cond))
+				continue
+			}
 			return
 		}
-		excl = append(excl, fmt.Sprintf("(not (= fr!r %s))", t.ref))
+		if t.cond != "" {
+			excl = append(excl, not(and(t.cond, fmt.Sprintf("(= fr!r %s)", t.ref))))
+		} else {
+			excl = append(excl, fmt.Sprintf("(not (= fr!r %s))", t.ref))
+		}
 	}
 	if !strings.HasPrefix(srt, "(Array Int ") || strings.HasPrefix(h, "G_") {
-		em.emit(fmt.Sprintf("(assert (= %s %s)) ; loop frame", cur, entry))
+		if len(excl) > 0 {
+			em.emit(fmt.Sprintf("(assert (=> %s (= %s %s))) ; loop frame", and(excl...), cur, entry))
+		} else {
+			em.emit(fmt.Sprintf("(assert (= %s %s)) ; loop frame", cur, entry))
+		}
 		return
 	}
 	guard := and(append([]string{fmt.Sprintf("(< fr!r %s)", r.top0)}, excl...)...)
@@ -986,4 +1009,35 @@ func lookupField(t types.Type, pkg *types.Package, name string) (types.Object, [
 		}
 	}
 	return obj, path, ind
+}
+
+// implicitVarScope: the symbolic variable of a type switch (switch e := x.(type)) is one implicit object per case
+// clause, all declared at the same position; go/ssa makes one Alloc per clause, in clause order. The k-th Alloc
+// with that name and position belongs to the k-th clause that has an implicit object.
+func implicitVarScope(info *types.Info, fn *ssa.Function, a *ssa.Alloc) *types.Scope {
+	var objs []*types.Var
+	for _, obj := range info.Implicits {
+		if v, ok := obj.(*types.Var); ok && v.Pos() == a.Pos() && v.Name() == a.Comment {
+			objs = append(objs, v)
+		}
+	}
+	if len(objs) == 0 {
+		return nil
+	}
+	sort.Slice(objs, func(i, j int) bool { return objs[i].Parent().Pos() < objs[j].Parent().Pos() })
+	k := 0
+	for _, b := range fn.Blocks {
+		for _, in := range b.Instrs {
+			if x, ok := in.(*ssa.Alloc); ok && x.Pos() == a.Pos() && x.Comment == a.Comment {
+				if x == a {
+					if k < len(objs) {
+						return objs[k].Parent()
+					}
+					return nil
+				}
+				k++
+			}
+		}
+	}
+	return nil
 }
